@@ -415,7 +415,16 @@ def rstop_server_stop_is_reported_after_the_drain(ctx):
     c10.r1_who_keeps_stopped_pending(ctx)
 
 
-LIB_RULES = [rstop_server_stop_is_reported_after_the_drain, r1_typestate, r2_closed_check_first, r3_identity, r4_close_gating, r5_unsubscribe_key, r6_single_writer, r7_envelope_is_fresh, r8_sibling_registrars, r9_low_level_connection_is_driven_by_its_future, r10_lossy_sends_are_the_api_only, rflag_success_flag_matches_json, r11_returned_messages_are_complete]
+
+def rjson_notifications_are_serialised_by_serde(ctx):
+    """`every notification carries that subscription's own id and notification method name`: the envelope is serialised by
+    serde_json from the typed SubscriptionResponse (which escapes the id and the name) - no string assembled by hand is
+    declared to be JSON outside the vetted assemblers (= C15.R6)"""
+    from . import c15
+    c15.r6_no_handmade_json(ctx)
+
+
+LIB_RULES = [rjson_notifications_are_serialised_by_serde, rstop_server_stop_is_reported_after_the_drain, r1_typestate, r2_closed_check_first, r3_identity, r4_close_gating, r5_unsubscribe_key, r6_single_writer, r7_envelope_is_fresh, r8_sibling_registrars, r9_low_level_connection_is_driven_by_its_future, r10_lossy_sends_are_the_api_only, rflag_success_flag_matches_json, r11_returned_messages_are_complete]
 CONFIGS_QUICK = ["libs-all", "corpus"]
 CONFIGS_THOROUGH = ["libs-all", "facade-full", "corpus"]
 
